@@ -19,6 +19,7 @@ package props
 import (
 	"context"
 	"fmt"
+	"os"
 	"sort"
 	"strings"
 	"sync"
@@ -47,6 +48,15 @@ func (c *ppCodec) ProtocolName() api.ProtocolName { return "boltpp" }
 func (c *ppCodec) NewXProtocol(ctx context.Context) api.XProtocol {
 	return &ppProto{c.inner.NewXProtocol(ctx)}
 }
+
+var (
+	ppHoldArmed int32
+	ppHeld      int64
+	ppArmedN    int64
+	// the closeNext counter of the upstream that is about to close a fresh connection (set by the "ac" operation)
+	ppAcceptClosed *int32
+	ppCloseSeen = make(chan struct{}, 64)
+)
 func (c *ppCodec) ProtocolMatch() api.ProtocolMatch { return nil }
 func (c *ppCodec) HTTPMapping() api.HTTPMapping     { return c.inner.HTTPMapping() }
 
@@ -67,6 +77,8 @@ func registerPingPong() {
 }
 
 type poolBooks interface{ VerifBooks() (idle int, total int) }
+
+var c09PoolsRead int64
 
 func c09Routes(proto string) []routeSpec {
 	return []routeSpec{
@@ -93,6 +105,10 @@ func c09ClusterExtra(name string) jmap {
 
 var c09Ops = []string{"ok", "ok", "d40:ok", "s503", "stall", "d700:ok", "close", "rst", "half", "dead", "hole", "oneway"}
 
+// c09AcceptClose: the operation "ac" - every pooled connection of the cluster is dropped first, then the upstream closes the next
+// connection it accepts at once; for the ping-pong xprotocol the pool's set-up of that connection is held until the pool has seen
+// the close (see ppCodec.NewXProtocol). The request itself may fail or be retried; the books afterwards are what is judged.
+
 func c09Engine(c *lab.Ctx) {
 	c.Rule("running MOSN, ping-pong pairings HTTP/1.1 and boltpp, cluster with max_connections=3; all operation sequences of depth <= 2 (3 thorough) over {ok, delayed ok, 5xx, stall->proxy timeout, late reply, close, RST, half response, connect failure, one-way} sequentially, random sequences of depth 12..40, and 8-way concurrent rounds (overflow); per-connection automaton + taint at the upstream, books vs kernel socket table at quiescence, capacity test; distinct = (protocol, operation sequence)")
 	registerPingPong()
@@ -115,6 +131,47 @@ func c09Engine(c *lab.Ctx) {
 			key, plan = "dead", "ok"
 		case "hole":
 			key, plan = "hole", "ok" // the connect times out after 150 ms
+		case "ac":
+			plan = "ok"
+			for _, hn := range []string{"c"} {
+				if u := e.ups[proto2up(proto)+"-"+hn]; u != nil {
+					u.closeConns()
+				}
+			}
+			// wait until the pool has digested those closes (its books read 0/0): a close event of an OLD connection must not be
+			// taken for the close of the connection that is about to be set up
+			for try := 0; try < 100; try++ {
+				settled := true
+				cluster.VerifRangePools(func(pn api.ProtocolName, addr string, pool types.ConnectionPool) {
+					if u := e.ups[proto2up(proto)+"-c"]; u != nil && addr == u.Addr && string(pn) == proto {
+						if b, ok := pool.(poolBooks); ok {
+							if idle, total := b.VerifBooks(); idle != 0 || total != 0 {
+								settled = false
+							}
+						}
+					}
+				})
+				if settled {
+					break
+				}
+				time.Sleep(10 * time.Millisecond)
+			}
+			time.Sleep(20 * time.Millisecond)
+			for _, hn := range []string{"c"} {
+				if u := e.ups[proto2up(proto)+"-"+hn]; u != nil {
+					atomic.StoreInt32(&u.closeNext, 1)
+				}
+			}
+			if proto == "boltpp" {
+				for len(ppCloseSeen) > 0 {
+					<-ppCloseSeen
+				}
+				if u := e.ups[proto2up(proto)+"-c"]; u != nil {
+					ppAcceptClosed = &u.closeNext
+				}
+				atomic.StoreInt32(&ppHoldArmed, 1)
+				atomic.AddInt64(&ppArmedN, 1)
+			}
 		case "rqover":
 			key, plan = "rq", "d60:ok" // cluster with max_requests=2: refused when 2 are in flight
 		case "oneway":
@@ -137,6 +194,14 @@ func c09Engine(c *lab.Ctx) {
 		ev := cl.do(r)
 		if ev.Kind == "open" || ev.Kind == "closed" {
 			cl.close()
+		}
+		if op == "ac" {
+			atomic.StoreInt32(&ppHoldArmed, 0)
+			for _, hn := range []string{"c"} {
+				if u := e.ups[proto2up(proto)+"-"+hn]; u != nil {
+					atomic.StoreInt32(&u.closeNext, 0)
+				}
+			}
 		}
 		return ev
 	}
@@ -308,6 +373,10 @@ func c09BooksBad(e *engine, proto string, withBreakers bool) []string {
 				return
 			}
 			idle, total := b.VerifBooks()
+			atomic.AddInt64(&c09PoolsRead, 1)
+			if os.Getenv("VERIF_C09_DEBUG") != "" {
+				fmt.Fprintf(os.Stderr, "DEBUG books %s %s idle=%d total=%d socks=%d\n", p, addr, idle, total, establishedTo(port))
+			}
 			socks := establishedTo(port)
 			if addr == e.hole.addr {
 				socks = 0 // the established sockets towards that port are the harness's own queue fillers
@@ -473,7 +542,45 @@ func c09Steered(c *lab.Ctx, e *engine, proto string, rng *lab.Rand, doOp func(cl
 		}
 		mu.Unlock()
 	})
+	var cmu sync.Mutex
+	closedConn := map[uint64]chan struct{}{}
+	closedCh := func(id uint64) chan struct{} {
+		cmu.Lock()
+		defer cmu.Unlock()
+		x := closedConn[id]
+		if x == nil {
+			x = make(chan struct{})
+			closedConn[id] = x
+		}
+		return x
+	}
+	if proto != "Http1" {
+		// "ac" operation: the pool's set-up of a fresh connection is parked just before it is marked connected until the pool has
+		// handled the close event of THAT connection (the upstream closed it right after accepting), bounded
+		verifhook.Set("xprotocol.pingpong.setup.beforeConnected", func(_ string, id uint64) {
+			if atomic.LoadInt32(&ppHoldArmed) == 0 {
+				return
+			}
+			select {
+			case <-closedCh(id):
+				atomic.AddInt64(&ppHeld, 1)
+				time.Sleep(2 * time.Millisecond) // let the close handler finish its bookkeeping
+			case <-time.After(300 * time.Millisecond):
+			}
+		})
+		defer verifhook.Set("xprotocol.pingpong.setup.beforeConnected", nil)
+	}
 	verifhook.Set(closePoint, func(_ string, id uint64) {
+		if proto != "Http1" {
+			x := closedCh(id)
+			cmu.Lock()
+			select {
+			case <-x:
+			default:
+				close(x)
+			}
+			cmu.Unlock()
+		}
 		select {
 		case <-ch(id):
 			atomic.AddInt64(&ordered, 1)
@@ -517,7 +624,7 @@ func c09Steered(c *lab.Ctx, e *engine, proto string, rng *lab.Rand, doOp func(cl
 		c.Distinct(proto + "|steered|" + strings.Join(ops, ">"))
 	}
 	for rep := 0; rep < c.Pick(1, 6); rep++ {
-		for _, op := range []string{"rst", "close", "half", "stall", "d700:ok", "s503", "dead", "hole"} {
+		for _, op := range []string{"rst", "close", "half", "stall", "d700:ok", "s503", "dead", "hole", "ac", "ac"} {
 			run([]string{op, "ok", "ok"})
 			run([]string{"ok", op, "ok", op, "ok"})
 		}
@@ -529,7 +636,15 @@ func c09Steered(c *lab.Ctx, e *engine, proto string, rng *lab.Rand, doOp func(cl
 		}
 		run(ops)
 	}
+	if proto != "Http1" {
+		c.Count("steered_setup_held_until_close_seen_"+proto, atomic.LoadInt64(&ppHeld))
+		c.Count("steered_setup_hold_armed_"+proto, atomic.LoadInt64(&ppArmedN))
+	}
+	c.Count("pool_books_read_"+proto, atomic.LoadInt64(&c09PoolsRead))
 	c.Count("steered_close_after_destroy_"+proto, atomic.LoadInt64(&ordered))
 	c.Count("steered_close_not_ordered_"+proto, atomic.LoadInt64(&unordered))
 	c.Require("steered close orders produced ("+proto+")", atomic.LoadInt64(&ordered) > 0, fmt.Sprint(ordered))
 }
+
+// proto2up: the engine names the upstreams of the ping-pong xprotocol after the listener protocol
+func proto2up(proto string) string { return proto }
